@@ -2,7 +2,10 @@
 (* Trace validation (impl -> spec) for C18: every line recorded from the    *)
 (* implementation by `c18 random` / `c18 points` must show the figures the  *)
 (* reference decomposition of Drawdown defines for the curve fed so far.    *)
-(*   {"a":"Reset", ...}                       a fresh generator              *)
+(*   {"a":"Reset", ...}                       a fresh generator, or (rs = 1) *)
+(*        the public reset() of the tear sheet generator that was fed the   *)
+(*        previous curve: either way the spec state is Init again           *)
+(*   {"a":"Persist", ..., "post":p}           serde store + restore         *)
 (*   {"a":"Read", ..., "post":p}              generate() on the LIVE         *)
 (*        DrawdownGenerator: post.cur is what the read returned             *)
 (*   {"a":"AddPoint","t":..,"v":..,"post":p}  one point and the projected    *)
@@ -17,7 +20,7 @@ EXTENDS Drawdown, Json, IOUtils, TLC
 Rec == ndJsonDeserialize(IOEnv.TRACE)
 
 VARIABLES l, bad
-tvars == <<curve, gen, emitted, seen, last, l, bad>>
+tvars == <<curve, gen, emitted, seen, sess, last, l, bad>>
 
 \* |x - r * 1e4| <= 1   (the log carries depths rounded to 1e-4 units; depths may exceed 1 - a curve
 \* can fall below zero - and r[1] * 1e4 stays below 2^31 over the trace driver's value set)
@@ -53,6 +56,7 @@ TInit == /\ Init /\ l = 1 /\ bad = <<>>
 
 TReset == /\ Rec[l].a = "Reset"
           /\ curve' = <<>> /\ gen' = Gen0 /\ emitted' = <<>> /\ seen' = NoDD
+          /\ sess' = [clock |-> 0, fed |-> 0, resets |-> 0]
           /\ last' = [a |-> "Reset", t |-> 0, v |-> 0]
           /\ UNCHANGED bad
 
@@ -66,9 +70,15 @@ TRead == /\ Rec[l].a = "Read"
          /\ ReadCurrent                                      \* the spec's own action
          /\ bad' = IF DDOk(Current(curve), Rec[l].post.cur) /\ Conf2(curve, Rec[l].post) THEN bad ELSE Append(bad, l)
 
+\* a store / restore of the generators: accepted only as a stutter of the abstract state; the figures
+\* shown after it are judged like any others
+TPersist == /\ Rec[l].a = "Persist"
+            /\ Persist                                       \* the spec's own action
+            /\ bad' = IF Conf2(curve, Rec[l].post) THEN bad ELSE Append(bad, l)
+
 TNext == /\ l <= Len(Rec)
          /\ l' = l + 1
-         /\ (TReset \/ TStep \/ TRead)
+         /\ (TReset \/ TStep \/ TRead \/ TPersist)
 
 TSpec == TInit /\ [][TNext]_tvars
 
